@@ -95,8 +95,8 @@ func (in *Interp) spawn(fr *Frame, fnv Value, args []Value) {
 		panic(mergeFail{"go statement inside merged callee"})
 	}
 	s := in.schedInit()
-	if len(s.coros) > 64 {
-		in.unsupported("more than 64 goroutines on one path")
+	if len(s.coros) > 1024 {
+		in.unsupported("more than 1024 goroutines on one path")
 	}
 	me := s.cur
 	c := &coro{id: len(s.coros), wake: make(chan struct{})}
